@@ -49,9 +49,10 @@ class Ctx:
     """what one symbolic run of a refine() body produced"""
 
     def __init__(self):
-        self.writes = []     # (row Lin, j or None, value, line, in_loop)
-        self.sims = {}       # id -> dict(cls, args, line)
+        self.writes = []     # (row Lin, j or None, value, line, in_loop, tag)
+        self.sims = {}       # id -> MapObj
         self.rows = {}       # rowkey -> Lin
+        self.vtx = {}        # rowkey -> VtxAcc (vertex refiners)
 
 
 class Holder:
@@ -64,7 +65,48 @@ class Holder:
             if len(ta) != 2:
                 raise Unsupported("get_index_set without <cell,face> arguments (line %s)" % node.get("l"))
             return IdxSet(self.ctx, self.tag, int(ta[0]), int(ta[1]))
+        if name == "get_index_set_wrapper":
+            ta = targs(node.get("cfull", ""))
+            if len(ta) != 1:
+                raise Unsupported("get_index_set_wrapper without <dim> (line %s)" % node.get("l"))
+            return InWrapper(self.ctx, self.tag, int(ta[0]))
         raise Unsupported("IndexSetHolder::%s (line %s)" % (name, node.get("l")))
+
+
+class InWrapper:
+    def __init__(self, ctx, tag, cd):
+        self.ctx, self.tag, self.cd = ctx, tag, cd
+
+    def mcall(self, ev, name, node, args):
+        if name == "get_index_set":
+            ta = targs(node.get("cfull", ""))
+            if len(ta) == 1:
+                return IdxSet(self.ctx, self.tag, self.cd, int(ta[0]))
+        raise Unsupported("IndexSetWrapper::%s (line %s)" % (name, node.get("l")))
+
+
+class HolderOut:
+    def __init__(self, ctx):
+        self.ctx = ctx
+
+    def mcall(self, ev, name, node, args):
+        ta = targs(node.get("cfull", ""))
+        if name == "get_index_set_wrapper" and len(ta) == 1:
+            return OutWrapper(self.ctx, int(ta[0]))
+        if name == "get_index_set" and len(ta) == 2:
+            return OutSet(self.ctx, (int(ta[0]), int(ta[1])))
+        raise Unsupported("output IndexSetHolder::%s (line %s)" % (name, node.get("l")))
+
+
+class OutWrapper:
+    def __init__(self, ctx, cd):
+        self.ctx, self.cd = ctx, cd
+
+    def mcall(self, ev, name, node, args):
+        ta = targs(node.get("cfull", ""))
+        if name == "get_index_set" and len(ta) == 1:
+            return OutSet(self.ctx, (self.cd, int(ta[0])))
+        raise Unsupported("output IndexSetWrapper::%s (line %s)" % (name, node.get("l")))
 
 
 class IdxSet:
@@ -98,30 +140,30 @@ class IdxRow:
 
 
 class OutSet:
-    def __init__(self, ctx):
-        self.ctx = ctx
+    def __init__(self, ctx, tag=None):
+        self.ctx, self.tag = ctx, tag
 
     def op_index(self, ev, i, node):
-        return OutRow(self.ctx, rt.lin(i))
+        return OutRow(self.ctx, rt.lin(i), self.tag)
 
 
 class OutRow:
-    def __init__(self, ctx, row):
-        self.ctx, self.row = ctx, row
+    def __init__(self, ctx, row, tag=None):
+        self.ctx, self.row, self.tag = ctx, row, tag
 
     def op_index(self, ev, j, node):
-        return OutSlot(self.ctx, self.row, rt.lin(j).as_int())
+        return OutSlot(self.ctx, self.row, rt.lin(j).as_int(), self.tag)
 
 
 class OutSlot:
-    def __init__(self, ctx, row, j):
-        self.ctx, self.row, self.j = ctx, row, j
+    def __init__(self, ctx, row, j, tag=None):
+        self.ctx, self.row, self.j, self.tag = ctx, row, j, tag
 
     def get(self):
         raise Unsupported("read of an output slot")
 
     def set(self, v, ev, node):
-        self.ctx.writes.append((self.row, self.j, v, node.get("l"), ev.loop_depth > 0))
+        self.ctx.writes.append((self.row, self.j, v, node.get("l"), ev.loop_depth > 0, self.tag))
 
 
 class OffsArr:
@@ -183,15 +225,96 @@ class TgtSet:
 
 
 class TgtOut:
+    def __init__(self, ctx, tag=None):
+        self.ctx, self.tag = ctx, tag
+
+    def op_index(self, ev, i, node):
+        return OutSlot(self.ctx, rt.lin(i), None, self.tag)
+
+
+class THolderOut:
     def __init__(self, ctx):
         self.ctx = ctx
 
+    def mcall(self, ev, name, node, args):
+        ta = targs(node.get("cfull", ""))
+        if name == "get_target_set" and len(ta) == 1:
+            return TgtOut(self.ctx, int(ta[0]))
+        raise Unsupported("output TargetSetHolder::%s (line %s)" % (name, node.get("l")))
+
+
+class VIn:
+    def __init__(self, ctx):
+        self.ctx = ctx
+
+    def mcall(self, ev, name, node, args):
+        if name == "get_num_vertices":
+            return Lin.atom(("num", "in", 0))
+        raise Unsupported("VertexSet::%s (line %s)" % (name, node.get("l")))
+
     def op_index(self, ev, i, node):
-        return OutSlot(self.ctx, rt.lin(i), None)
+        return VtxRef(rt.lin(i))
+
+
+class VtxRef:
+    def __init__(self, idx):
+        self.idx = idx
+
+
+class VOut:
+    def __init__(self, ctx):
+        self.ctx = ctx
+
+    def mcall(self, ev, name, node, args):
+        if name == "get_num_vertices":
+            return Lin.atom(("vout",))
+        raise Unsupported("VertexSet::%s (line %s)" % (name, node.get("l")))
+
+    def op_index(self, ev, i, node):
+        row = rt.lin(i)
+        key = repr(row)
+        if key not in self.ctx.vtx:
+            self.ctx.vtx[key] = VtxAcc(row, node.get("l") if node else None, ev.loop_depth > 0)
+        return self.ctx.vtx[key]
+
+
+class VtxAcc:
+    """an output vertex: linear combination of input vertices"""
+
+    def __init__(self, row, line, in_loop):
+        self.row, self.line, self.in_loop = row, line, in_loop
+        self.coef = None      # None: not yet defined (uninitialised memory)
+        self.problems = []
+
+    def mcall(self, ev, name, node, args):
+        if name == "format":
+            a = args[0] if args else Lin(0)
+            if not (isinstance(a, Lin) and a.is_const() and a.c == 0) and a != 0:
+                raise Unsupported("vertex.format(%s) (line %s)" % (a, node.get("l")))
+            self.coef = {}
+            return None
+        if name == "axpy" and len(args) == 2 and isinstance(args[1], VtxRef):
+            if self.coef is None:
+                self.problems.append("axpy onto an output vertex that was not cleared first (line %s)" % node.get("l"))
+                self.coef = {}
+            al = args[0] if isinstance(args[0], Fraction) else Fraction(rt.lin(args[0]).as_int())
+            k = args[1].idx
+            self.coef[k] = self.coef.get(k, Fraction(0)) + al
+            return self
+        raise Unsupported("Tiny::Vector::%s on an output vertex (line %s)" % (name, node.get("l")))
+
+    def op_assign(self, ev, v, node):
+        if not isinstance(v, VtxRef):
+            raise Unsupported("assignment of %r to an output vertex (line %s)" % (v, node.get("l")))
+        self.coef = {v.idx: Fraction(1)}
 
 
 def hook_assert(ev, node, env, fn):
-    ev.asserts.append(node)
+    try:
+        val = ev.rvalue(ev.eval(node["a"][0], env, fn))
+    except Unsupported as e:
+        val = e
+    ev.asserts.append((node, val, fn))
     return None
 
 
@@ -242,22 +365,1583 @@ def extract_target_template(facts, fn):
     return t
 
 
+
+# =================================================================================================
+# extracted tables
+# =================================================================================================
+
+class Bad(Exception):
+    """a definite inconsistency met while evaluating the tables on the reference cell"""
+    pass
+
+
+class Tables:
+    def __init__(self, facts):
+        self.facts = facts
+        self.ft = {}        # (shape, d) -> Shape::FaceTraits<shape,d>::count
+        self.rc = {}        # (shape, d) -> StandardRefinementTraits<shape,d>::count
+        self.fim = {}       # (shape, cd, fd) -> FaceIndexMapping rows
+        self.fim_fn = {}
+        self.cm = {}        # (shape, fd) -> CongruencyMapping rows
+        self.cm_fn = {}
+        self.paths = {}     # compare instantiation (full name) -> decision paths
+        self.tmpl = {}      # (shape, cd, fd) -> Template (normalised: .slots)
+        self.syms = {}      # shape -> admissible vertex permutations (symmetries of the shape)
+        self.models = {}    # class name of a Sub/TargetIndexMapping -> MapModel
+
+    def sampler_paths(self, fn):
+        if fn.full not in self.paths:
+            self.paths[fn.full] = rt.decision_paths(fn)
+        return self.paths[fn.full]
+
+
+def harvest_constants(T, facts):
+    for f in facts.functions:
+        if f.tk == "pattern":
+            continue
+        for n in f.nodes():
+            if n.get("k") != "Ref" or "v" not in n:
+                continue
+            qn = n.get("qn", "")
+            m = re.match(r"^FEAT::(Shape::FaceTraits|Geometry::Intern::StandardRefinementTraits)<(.*), (\d+)>::count$", qn)
+            if not m:
+                continue
+            sh = shape_of(m.group(2))
+            if sh is None:
+                continue
+            (T.ft if "FaceTraits" in m.group(1) else T.rc)[(sh, int(m.group(3)))] = int(n["v"])
+
+
+def compute_symmetries(T):
+    for sh in [("H", 1), ("S", 1), ("H", 2), ("S", 2)]:
+        nv = T.ft[(sh, 0)]
+        perms = list(itertools.permutations(range(nv)))
+        if sh[1] == 1:
+            T.syms[sh] = perms
+            continue
+        edges = {frozenset(r) for r in T.fim[(sh, 1, 0)]}
+        T.syms[sh] = [p for p in perms if {frozenset(p[v] for v in e) for e in edges} == edges]
+    T.syms[("V", 0)] = [(0,)]
+
+
+# ---- glue classes (SubIndexMapping / TargetIndexMapping): what `map()` computes ------------------
+
+class SymArr:
+    def __init__(self, name, depth):
+        self.name, self.depth = name, depth
+
+    def op_index(self, ev, i, node):
+        i = rt.lin(i)
+        if self.depth == 1:
+            return Lin.atom((self.name, i.key()))
+        return SymArr((self.name, i.key()), self.depth - 1)
+
+
+def sym_value(x, binding):
+    """value of an index expression built from SymArr atoms under a binding base name -> container"""
+    def atom_val(a):
+        if len(a) != 2:
+            raise Unsupported("unexpected atom %r in an orientation lookup" % (a,))
+        base, key = a
+        cont = binding[base] if isinstance(base, str) else atom_val(base)
+        return cont[key_val(key)]
+
+    def key_val(key):
+        c, items = key
+        if c == 0 and len(items) == 1 and items[0][1] == 1:
+            return atom_val(items[0][0])
+        v = c
+        for a, k in items:
+            v += k * atom_val(a)
+        return v
+    return key_val(rt.lin(x).key())
+
+
+class MapModel:
+    """map(key) = CongruencyMapping<Y,z>[ compare_n(src, trg) ][idx]"""
+    pass
+
+
+def build_map_model(T, cls, kind):
+    facts = T.facts
+    ctors = [f for f in facts.functions if f.cls == cls and f.d.get("ctor") and f.tk != "pattern" and len(f.params) == 3]
+    maps = [f for f in facts.functions if f.cls == cls and f.name == "map" and f.tk != "pattern"]
+    if len(ctors) < 1 or len(maps) != 1:
+        raise Unsupported("%s: constructor/map not found in the fact base" % cls)
+    ta = targs(cls)
+    model = MapModel()
+    model.cls, model.kind = cls, kind
+    model.shape = shape_of(ta[0])
+    model.cmp, model.map, model.fn = [], {}, maps[0]
+
+    def elem(ev, obj, k):
+        if hasattr(obj, "op_index"):
+            return obj.op_index(ev, Lin(k), None)
+        if isinstance(obj, rt.UObj):
+            fs = ev.by_qn.get((obj.cls + "::operator[]", 1))
+            if fs:
+                return ev.run(fs[0], [Lin(k)], this=obj)
+        raise Unsupported("%s: cannot index %r" % (cls, obj))
+
+    def h_compare(ev, node, env, fn):
+        X = shape_of(node.get("ccls", ""))
+        target = ev.lookup(node)
+        if X is None or target is None or len(node.get("a", [])) != 2:
+            raise Unsupported("%s: compare call not resolvable (line %s)" % (cls, node.get("l")))
+        a0 = ev.rvalue(ev.eval(node["a"][0], env, fn))
+        a1 = ev.rvalue(ev.eval(node["a"][1], env, fn))
+        nv = T.ft[(X, 0)]
+        model.cmp.append({"shape": X, "fn": target, "src": [elem(ev, a0, k) for k in range(nv)],
+                          "trg": [elem(ev, a1, k) for k in range(nv)]})
+        return Lin.atom(("orient", len(model.cmp) - 1))
+
+    def h_cm(ev, node, env, fn):
+        tb = targs(node.get("ccls", ""))
+        Y, z = shape_of(tb[0]), int(tb[1])
+        o = rt.lin(ev.rvalue(ev.eval(node["a"][0], env, fn)))
+        idx = rt.lin(ev.rvalue(ev.eval(node["a"][1], env, fn))).as_int()
+        if o.c != 0 or len(o.t) != 1 or list(o.t.values()) != [1] or list(o.t)[0][0] != "orient":
+            raise Unsupported("%s: orientation argument of CongruencyMapping::map is %s" % (cls, o))
+        return Lin.atom(("cm", Y, z, list(o.t)[0][1], idx))
+
+    ev = SymEval([facts], call_hooks=[(r"Intern::CongruencySampler<.*>::compare$", h_compare),
+                                      (r"Intern::CongruencyMapping<.*>::map$", h_cm),
+                                      (r"^FEAT::assertion$", hook_assert)])
+    obj = rt.UObj(cls)
+    if kind == "sim":
+        args = [SymArr("sv", 1), SymArr("sc", 1), SymArr("cv", 2)]
+        cd, fd = int(ta[1]), int(ta[2])
+        ncell = T.ft[(model.shape, cd)]
+        nface = T.ft[(face_shape(model.shape, cd), fd)]
+        keys = [(a, b) for a in range(ncell) for b in range(nface)]
+    else:
+        args = [SymArr("tv", 1), SymArr("sv", 1), SymArr("vi", 1)]
+        fd = int(ta[1])
+        keys = [(b,) for b in range(T.ft[(model.shape, fd)])]
+    ev.run(ctors[0], args, this=obj)
+    model.asserts = ev.asserts
+    for key in keys:
+        r = rt.lin(ev.run(maps[0], [Lin(x) for x in key], this=obj))
+        if r.c != 0 or len(r.t) != 1 or list(r.t.values()) != [1] or list(r.t)[0][0] != "cm":
+            raise Unsupported("%s::map%s is not a CongruencyMapping lookup: %s" % (cls, key, r))
+        model.map[key] = list(r.t)[0][1:]
+    return model
+
+
+def map_model(T, cls, kind):
+    if cls not in T.models:
+        try:
+            T.models[cls] = build_map_model(T, cls, kind)
+        except Unsupported as e:
+            T.models[cls] = e
+    m = T.models[cls]
+    if isinstance(m, Exception):
+        raise m
+    return m
+
+
+def model_eval(T, model, key, binding):
+    if key not in model.map:
+        raise Bad("%s::map%s: arguments out of range" % (model.cls, key))
+    Y, z, n, idx = model.map[key]
+    c = model.cmp[n]
+    src = [sym_value(x, binding) for x in c["src"]]
+    trg = [sym_value(x, binding) for x in c["trg"]]
+    code = rt.decide(T.sampler_paths(c["fn"]), src, trg)
+    rows = T.cm.get((Y, z))
+    if rows is None:
+        raise Unsupported("CongruencyMapping<%s,%d> not extracted" % (sname(Y), z))
+    if code is None or not (0 <= code < len(rows)):
+        raise Bad("CongruencySampler<%s>::compare(%s, %s) returns %s (no valid orientation code)" % (sname(c["shape"]), src, trg, code))
+    if not (0 <= idx < len(rows[code])):
+        raise Bad("CongruencyMapping<%s,%d>::map(%d,%d) out of range" % (sname(Y), z, code, idx))
+    return rows[code][idx]
+
+
+# =================================================================================================
+# template normalisation (clause 1)
+# =================================================================================================
+
+class Slot:
+    def __init__(self, p, m, parent, child, line):
+        self.p, self.m, self.parent, self.child, self.line = p, m, parent, child, line
+
+    def __repr__(self):
+        par = "i" if self.parent[0] == "self" else "<%d>[%d]" % (self.parent[1], self.parent[2])
+        ch = str(self.child[1]) if self.child[0] == "const" else "map#%d(%d,%d)" % self.child[1:]
+        return "off[%d]+%d*%s+%s" % (self.p, self.m, par, ch)
+
+
+def decompose(T, tm, value, line):
+    """value = index_offsets[p] + m*parent + child  ->  (Slot, problem or None)"""
+    sd = tm.shape[1]
+    value = rt.lin(value)
+    offs = [(a, k) for a, k in value.t.items() if a[0] == "off"]
+    loops = [(a, k) for a, k in value.t.items() if a[0] == "loop"]
+    ents = [(a, k) for a, k in value.t.items() if a[0] == "ent"]
+    sims = [(a, k) for a, k in value.t.items() if a[0] == "sim"]
+    other = [a for a in value.t if a[0] not in ("off", "loop", "ent", "sim")]
+    if other:
+        raise Unsupported("unexpected term %s in %s (line %s)" % (rt.atom_name(other[0]), value, line))
+    if len(offs) != 1 or offs[0][1] != 1:
+        return None, "value %s does not contain exactly one index offset" % value
+    p = offs[0][0][1]
+    if len(loops) + len(ents) != 1:
+        return None, "value %s does not refer to exactly one coarse entity" % value
+    if loops:
+        parent, m, origin = ("self",), loops[0][1], sd
+    else:
+        a, m = ents[0]
+        _, tag, cd, fd, rowkey, kk = a
+        row = tm.ctx.rows[rowkey]
+        if not (tag == "in" and cd == sd and row == Lin.atom(tm.loops[0]["atom"])):
+            return None, "value %s reads index set <%d,%d> at row %s (not the index set row of the coarse entity i of dimension %d)" % (value, cd, fd, row, sd)
+        if not (0 <= kk < T.ft[(tm.shape, fd)]):
+            return None, "local face index %d out of range in %s" % (kk, value)
+        parent, origin = ("face", fd, kk), fd
+    if len(sims) > 1 or (sims and sims[0][1] != 1):
+        return None, "value %s has more than one orientation lookup" % value
+    child = ("sim",) + sims[0][0][1:] if sims else ("const", value.c)
+    slot = Slot(p, m, parent, child, line)
+    if p != origin:
+        return slot, "index_offsets[%d] is added to an index of an entity of dimension %d (%s)" % (p, origin, value)
+    want = T.rc.get((face_shape(tm.shape, origin), tm.fd))
+    if m != want:
+        return slot, "multiplier %d of the parent index, but a coarse %d-entity has %s fine %d-entities (%s)" % (m, origin, want, tm.fd, value)
+    if sims:
+        if value.c != 0:
+            return slot, "constant %d added to an orientation lookup (%s)" % (value.c, value)
+        sim = tm.ctx.sims[sims[0][0][1]]
+        ta = targs(sim.cls)
+        if sim.kind != "sim" or shape_of(ta[0]) != tm.shape or int(ta[1]) != origin:
+            return slot, "%s used for children of a %d-face of %s" % (sim.cls.rsplit("::", 1)[-1], origin, sname(tm.shape))
+        if parent[0] != "face" or sims[0][0][2] != parent[2]:
+            return slot, "orientation of local face %d used for a child of local face %s (%s)" % (sims[0][0][2], parent[2:] and parent[2], value)
+        ok = (len(sim.args) == 3 and isinstance(sim.args[0], IdxRow) and isinstance(sim.args[1], IdxRow) and isinstance(sim.args[2], IdxSet)
+              and (sim.args[0].iset.tag, sim.args[0].iset.cd, sim.args[0].iset.fd) == ("in", sd, 0)
+              and (sim.args[1].iset.tag, sim.args[1].iset.cd, sim.args[1].iset.fd) == ("in", sd, origin)
+              and (sim.args[2].tag, sim.args[2].cd, sim.args[2].fd) == ("in", origin, 0)
+              and sim.args[0].row == Lin.atom(tm.loops[0]["atom"]) and sim.args[1].row == Lin.atom(tm.loops[0]["atom"]))
+        if not ok:
+            return slot, "SubIndexMapping at line %s is not built from (vertices of cell i, %d-faces of cell i, vertices-at-%d-face set): %r" % (sim.line, origin, origin, sim.args)
+        nb = T.ft[(face_shape(tm.shape, origin), int(ta[2]))]
+        if not (0 <= sims[0][0][3] < nb):
+            return slot, "second argument of map(%d,%d) out of range %d" % (sims[0][0][2], sims[0][0][3], nb)
+    else:
+        if not (0 <= value.c < m):
+            return slot, "child number %d is not below the number %d of children (%s)" % (value.c, m, value)
+    return slot, None
+
+
+def analyse_template(T, ck, tm):
+    """-> True iff tm.slots is complete and usable for the reference-cell analysis"""
+    name = tname(tm.shape, tm.cd, tm.fd)
+    fn = tm.fn
+    sd = tm.shape[1]
+    tm.slots = {}
+    prob = []
+    if len(tm.loops) != 1:
+        prob.append("%d loops over coarse entities" % len(tm.loops))
+    else:
+        b = tm.loops[0]["bound"]
+        if b != Lin.atom(("num", "in", sd)):
+            prob.append("the loop runs to %s, not over the coarse %d-entities" % (b, sd))
+    if any(not w[4] for w in tm.ctx.writes):
+        prob.append("index tuples written outside the loop over the coarse entities")
+    c = None
+    rows = {}
+    if not prob:
+        i_atom = tm.loops[0]["atom"]
+        for row, j, val, line, _, _tag in tm.ctx.writes:
+            cc = row.t.get(i_atom, 0)
+            rest = row - Lin.atom(("offset",)) - Lin.atom(i_atom) * cc
+            if not rest.is_const() or cc <= 0:
+                prob.append("output row %s (line %s) is not offset + c*i + k" % (row, line))
+                break
+            if c is None:
+                c = cc
+            elif c != cc:
+                prob.append("output rows use different strides %d and %d" % (c, cc))
+                break
+            rows.setdefault((rest.c, j), []).append((val, line))
+    want = T.rc.get((tm.shape, tm.cd))
+    if not prob:
+        if c != want:
+            prob.append("%s fine entities per coarse entity are written, StandardRefinementTraits<%s,%d>::count = %s" % (c, sname(tm.shape), tm.cd, want))
+        if tm.ret is None or rt.lin(tm.ret) != Lin.atom(("num", "in", sd)) * (want or 0):
+            prob.append("returns %s, expected %s*(number of coarse %d-entities)" % (tm.ret, want, sd))
+    ck.ob("E10.template-form", name, not prob, "; ".join(prob) or "out[offset + %d*i + k], k<%d; returns %d*num" % (c, c, c), fn.file, fn.line,
+          sample={"children": c, "writes": len(tm.ctx.writes)})
+    if prob:
+        return False
+    nidx = T.ft[(face_shape(tm.shape, tm.cd), tm.fd)]
+    bad = []
+    for k in range(c):
+        for j in range(nidx):
+            n = len(rows.get((k, j), []))
+            if n != 1:
+                bad.append("child %d index %d assigned %d times" % (k, j, n))
+    for (k, j) in rows:
+        if not (0 <= k < c and 0 <= j < nidx):
+            bad.append("write to child %d index %d outside %dx%d (line %s)" % (k, j, c, nidx, rows[(k, j)][0][1]))
+    ck.ob("E10.slot-once", name, not bad, "; ".join(bad[:6]) or "%d x %d slots each assigned once" % (c, nidx), fn.file, fn.line)
+    complete = not bad
+    for (k, j), ws in sorted(rows.items()):
+        val, line = ws[-1]
+        try:
+            slot, problem = decompose(T, tm, val, line)
+        except Unsupported as e:
+            ck.incomplete("E10.slot-origin", "%s child %d index %d: %s" % (name, k, j, e))
+            complete = False
+            continue
+        ck.ob("E10.slot-origin", "%s/child%d/idx%d" % (name, k, j), problem is None, problem or repr(slot), fn.file, line)
+        if problem is None:
+            tm.slots[(k, j)] = slot
+        else:
+            complete = False
+    return complete
+
+
+# =================================================================================================
+# reference cell (clause 2)
+# =================================================================================================
+
+class RefMesh:
+    """one coarse cell of `shape` with all its faces as separate coarse entities; every face of
+    dimension 1..D-1 carries its own vertex numbering = the parent's view permuted by a symmetry of
+    the face shape (self.orient chooses it; choices actually read are recorded in self.consulted).
+    Entity ids: vertices are ints, higher entities the frozenset of their vertices (the templates
+    treat ids as opaque, this is verified by E10.slot-origin)."""
+
+    def __init__(self, T, shape, cell=None, orient=None):
+        self.T, self.shape, self.D = T, shape, shape[1]
+        nv = T.ft[(shape, 0)]
+        self.cell = tuple(cell) if cell is not None else tuple(range(nv))
+        self.orient = orient or {}
+        self.consulted = set()
+        self.view = {}
+        self.local = {}
+        for d in range(1, self.D):
+            self.local[d] = []
+            for row in T.fim[(shape, d, 0)]:
+                vt = tuple(self.cell[x] for x in row)
+                self.view[(d, frozenset(vt))] = vt
+                self.local[d].append(frozenset(vt))
+        self.cell_id = frozenset(self.cell)
+        self.local[self.D] = [self.cell_id]
+        self.local[0] = list(self.cell)
+
+    def own(self, d, eid):
+        if d == self.D:
+            if eid != self.cell_id:
+                raise Bad("unknown cell %s" % (eid,))
+            return self.cell
+        if (d, eid) not in self.view:
+            raise Bad("entity %s is not a %d-face of the reference cell" % (sorted(eid) if isinstance(eid, frozenset) else eid, d))
+        vt = self.view[(d, eid)]
+        syms = self.T.syms[face_shape(self.shape, d)]
+        self.consulted.add((d, eid))
+        p = syms[self.orient.get((d, eid), 0)]
+        own = [None] * len(vt)
+        for k in range(len(vt)):
+            own[p[k]] = vt[k]
+        return tuple(own)
+
+    def idx(self, cd, fd, eid):
+        """row `eid` of the coarse index set <cd,fd>"""
+        if not (0 <= fd < cd <= self.D):
+            raise Bad("index set <%d,%d> does not exist for %s" % (cd, fd, sname(self.shape)))
+        if fd == 0:
+            return self.own(cd, eid)
+        if cd == self.D:
+            if eid != self.cell_id:
+                raise Bad("unknown cell %s" % (eid,))
+            return tuple(self.local[fd])
+        own = self.own(cd, eid)
+        fs = face_shape(self.shape, cd)
+        return tuple(frozenset(own[x] for x in row) for row in self.T.fim[(fs, fd, 0)])
+
+    def entities(self, d):
+        return list(self.local[d])
+
+
+class RowMap:
+    def __init__(self, mesh, cd, fd):
+        self.mesh, self.cd, self.fd = mesh, cd, fd
+
+    def __getitem__(self, eid):
+        return self.mesh.idx(self.cd, self.fd, eid)
+
+
+def resolve(T, mesh, tm, slot, eid):
+    """fine entity (dim, origin dim, coarse parent id, child number) named by a template slot,
+    for the coarse entity `eid` of shape tm.shape"""
+    sd = tm.shape[1]
+    if slot.parent[0] == "self":
+        p, pid = sd, eid
+    else:
+        p = slot.parent[1]
+        pid = mesh.idx(sd, p, eid)[slot.parent[2]]
+    if slot.child[0] == "const":
+        ch = slot.child[1]
+    else:
+        _, simid, a, b = slot.child
+        sim = tm.ctx.sims[simid]
+        model = map_model(T, sim.cls, "sim")
+        binding = {"sv": mesh.idx(sim.args[0].iset.cd, sim.args[0].iset.fd, eid),
+                   "sc": mesh.idx(sim.args[1].iset.cd, sim.args[1].iset.fd, eid),
+                   "cv": RowMap(mesh, sim.args[2].cd, sim.args[2].fd)}
+        ch = model_eval(T, model, (a, b), binding)
+    return (tm.fd, p, pid, ch)
+
+
+def fine_verts(T, mesh, X):
+    f, p, pid, ch = X
+    if f == 0:
+        return (X,)
+    shp = face_shape(mesh.shape, p)
+    tm = T.tmpl.get((shp, f, 0))
+    n = T.rc.get((shp, f))
+    if tm is None or not getattr(tm, "usable", False):
+        raise Unsupported("template %s not available" % tname(shp, f, 0))
+    if not (0 <= ch < n):
+        raise Bad("child %d of a coarse %d-entity does not exist (it has %d fine %d-entities)" % (ch, p, n, f))
+    nv = T.ft[(face_shape(shp, f), 0)]
+    return tuple(resolve(T, mesh, tm, tm.slots[(ch, j)], pid) for j in range(nv))
+
+
+def all_orientations(T, shape, cond, cell=None, limit=5000):
+    """evaluate cond(mesh) for every combination of orientations of the sub-entities it reads"""
+    pending = [dict()]
+    seen = set()
+    out = []
+    while pending:
+        asg = pending.pop()
+        key = frozenset(asg.items())
+        if key in seen:
+            continue
+        seen.add(key)
+        if len(seen) > limit:
+            raise Unsupported("more than %d orientation combinations" % limit)
+        mesh = RefMesh(T, shape, cell, asg)
+        out.append((asg, cond(mesh)))
+        for c in mesh.consulted:
+            n = len(T.syms[face_shape(shape, c[0])])
+            for o in range(n):
+                if asg.get(c, 0) != o:
+                    new = dict(asg)
+                    if o == 0:
+                        new.pop(c, None)
+                    else:
+                        new[c] = o
+                    pending.append(new)
+    return out
+
+
+def fmt_ent(X):
+    f, p, pid, ch = X
+    names = {0: "vertex", 1: "edge", 2: "face", 3: "cell"}
+    pv = sorted(pid) if isinstance(pid, frozenset) else [pid]
+    if f == 0:
+        return "v(%s)" % ",".join(map(str, pv))
+    return "%s#%d of coarse %s(%s)" % (names[f], ch, names[p], ",".join(map(str, pv)))
+
+
+def fmt_asg(T, shape, asg):
+    if not asg:
+        return "all sub-entities in reference orientation"
+    return ", ".join("%d-face(%s) numbered by symmetry %s" % (d, ",".join(map(str, sorted(e))), T.syms[face_shape(shape, d)][o])
+                     for (d, e), o in sorted(asg.items(), key=repr))
+
+
+def check_reference_cell(T, ck, shape):
+    D = shape[1]
+    base = RefMesh(T, shape)
+    cell = base.cell_id
+    ncomb = 0
+    for cd in range(1, D + 1):
+        t0 = T.tmpl.get((shape, cd, 0))
+        if t0 is None or not t0.usable:
+            ck.incomplete("E10.incidence", "template %s not usable" % tname(shape, cd, 0))
+            continue
+        cshape = face_shape(shape, cd)
+        for fd in range(1, cd):
+            tf = T.tmpl.get((shape, cd, fd))
+            if tf is None or not tf.usable:
+                ck.incomplete("E10.incidence", "template %s not usable" % tname(shape, cd, fd))
+                continue
+            for k in range(T.rc[(shape, cd)]):
+                for j in range(T.ft[(cshape, fd)]):
+                    def cond(mesh, k=k, j=j, tf=tf, cd=cd, fd=fd, cshape=cshape):
+                        try:
+                            V = fine_verts(T, mesh, (cd, D, cell, k))
+                            Y = resolve(T, mesh, tf, tf.slots[(k, j)], cell)
+                            VY = set(fine_verts(T, mesh, Y))
+                            exp = {V[t] for t in T.fim[(cshape, fd, 0)][j]}
+                        except Bad as e:
+                            return (False, str(e))
+                        if VY != exp:
+                            return (False, "entry names %s with vertices {%s}, but local %d-face %d of the fine cell has vertices {%s}" % (
+                                fmt_ent(Y), ", ".join(sorted(fmt_ent(v) for v in VY)), fd, j, ", ".join(sorted(fmt_ent(v) for v in exp))))
+                        return (True, fmt_ent(Y))
+                    key = "%s/%d-cell%d/%d-face%d" % (sname(shape), cd, k, fd, j)
+                    try:
+                        res = all_orientations(T, shape, cond)
+                    except Unsupported as e:
+                        ck.incomplete("E10.incidence", "%s: %s" % (key, e))
+                        continue
+                    ncomb += len(res)
+                    bad = [(a, r) for a, r in res if not r[0]]
+                    line = tf.slots[(k, j)].line
+                    if bad:
+                        a, r = bad[0]
+                        ck.ob("E10.incidence", key, False, "%s [%s; %d of %d orientation combinations fail]" % (r[1], fmt_asg(T, shape, a), len(bad), len(res)), tf.fn.file, line)
+                    else:
+                        ck.ob("E10.incidence", key, True, "%d orientation combinations: %s" % (len(res), res[0][1][1]), tf.fn.file, line,
+                              sample={"combinations": len(res), "entity": res[0][1][1]})
+    # ---- every fine sub-entity in the closure of the refined cell is used; facets the right number of times
+    for fd in range(0, D):
+        tf = T.tmpl.get((shape, D, fd))
+        if tf is None or not tf.usable:
+            ck.incomplete("E10.facet-count", "template %s not usable" % tname(shape, D, fd))
+            continue
+        groups = {}
+        for (k, j), slot in sorted(tf.slots.items()):
+            groups.setdefault(slot.parent, []).append((k, j, slot))
+        parents = [("self",)] + [("face", p, a) for p in range(fd, D) for a in range(T.ft[(shape, p)])]
+        for par in parents:
+            p = D if par[0] == "self" else par[1]
+            nchild = T.rc[(face_shape(shape, p), fd)]
+            slots = groups.get(par, [])
+            facet = fd == D - 1
+            expect = (2 if par[0] == "self" else 1) if facet else None
+            pname = "interior" if par[0] == "self" else "%d-face%d" % (p, par[2])
+            key = "%s/%d-entities/%s" % (sname(shape), fd, pname)
+            if nchild == 0 and not slots:
+                continue
+
+            def cond(mesh, slots=slots, nchild=nchild, expect=expect):
+                cnt = {}
+                try:
+                    for k, j, slot in slots:
+                        Y = resolve(T, mesh, tf, slot, cell)
+                        cnt[Y[3]] = cnt.get(Y[3], 0) + 1
+                except Bad as e:
+                    return (False, str(e))
+                for ch in range(nchild):
+                    n = cnt.get(ch, 0)
+                    if (expect is not None and n != expect) or n == 0:
+                        return (False, "child %d is referenced by %d fine cells%s" % (ch, n, " (expected %d)" % expect if expect is not None else " (never used)"))
+                extra = [ch for ch in cnt if not (0 <= ch < nchild)]
+                if extra:
+                    return (False, "non-existent child %s referenced" % extra)
+                return (True, "%d children, each referenced %s" % (nchild, "%d time(s)" % expect if expect is not None else "at least once"))
+            try:
+                res = all_orientations(T, shape, cond)
+            except Unsupported as e:
+                ck.incomplete("E10.facet-count", "%s: %s" % (key, e))
+                continue
+            ncomb += len(res)
+            bad = [(a, r) for a, r in res if not r[0]]
+            rule = "E10.facet-count" if facet else "E10.no-orphan"
+            if bad:
+                a, r = bad[0]
+                ck.ob(rule, key, False, "%s [%s]" % (r[1], fmt_asg(T, shape, a)), tf.fn.file, tf.fn.line)
+            else:
+                ck.ob(rule, key, True, "%d orientation combinations: %s" % (len(res), res[0][1][1]), tf.fn.file, tf.fn.line)
+    return ncomb
+
+
+# =================================================================================================
+# counts (clause 1, second half)
+# =================================================================================================
+
+def binom(n, k):
+    from math import comb
+    return comb(n, k)
+
+
+def check_counts(T, ck, facts):
+    # Euler characteristic: the open d-cell contributes (-1)^d; its refinement contributes
+    # sum_f (-1)^f * (number of fine f-entities created inside it)
+    for sh in [("V", 0)] + SHAPES:
+        d = sh[1]
+        vals = [T.rc.get((sh, f)) for f in range(d + 1)]
+        if any(v is None for v in vals):
+            ck.incomplete("E10.traits-euler", "StandardRefinementTraits<%s,*>::count not found" % sname(sh))
+            continue
+        s = sum((-1) ** f * v for f, v in enumerate(vals))
+        ck.ob("E10.traits-euler", sname(sh), s == (-1) ** d,
+              "fine entities per coarse %s by dimension %s: alternating sum %d, open %d-cell contributes %d" % (sname(sh), vals, s, d, (-1) ** d),
+              featlib.repo_path("kernel/geometry/intern/standard_refinement_traits.hpp"), None, sample={"counts": vals})
+    for sh in [("H", 1), ("H", 2), ("H", 3), ("S", 1)]:
+        d = sh[1]
+        for f in range(d + 1):
+            want = 2 ** f * binom(d, f)
+            got = T.rc.get((sh, f))
+            ck.ob("E10.cube-counts", "%s/%d" % (sname(sh), f), got == want,
+                  "StandardRefinementTraits<%s,%d>::count = %s, regular refinement creates 2^%d*C(%d,%d) = %d" % (sname(sh), f, got, f, d, f, want),
+                  featlib.repo_path("kernel/geometry/intern/standard_refinement_traits.hpp"), None)
+    # EntityCounter / EntityCountWrapper: symbolic in the coarse entity counts n_d
+    for sh in SHAPES:
+        D = sh[1]
+        ev = SymEval([facts], call_hooks=[(r"^FEAT::assertion$", hook_assert)])
+        pre = "FEAT::Geometry::Intern::EntityCountWrapper<FEAT::Geometry::Intern::StandardRefinementTraits, FEAT::Shape::%s, %d>::query" % (sname(sh), D)
+        q = [f for f in facts.functions if f.full == pre]
+        if len(q) != 1:
+            ck.incomplete("E10.entity-counter", "%s not in the fact base" % pre)
+            continue
+        num = rt.Arr([Lin.atom(("n", d)) for d in range(D + 1)])
+        try:
+            ev.run(q[0], [num])
+        except Unsupported as e:
+            ck.incomplete("E10.entity-counter", "%s: %s" % (pre, e))
+            continue
+        for f in range(D + 1):
+            want = Lin(0)
+            for d in range(f, D + 1):
+                want = want + Lin.atom(("n", d)) * T.rc[(face_shape(sh, d), f)]
+            ck.ob("E10.entity-counter", "%s/count%d" % (sname(sh), f), rt.lin(num[f]) == want,
+                  "EntityCountWrapper::query gives fine n_%d = %s; sum over the coarse entities of dimension >= %d of their fine %d-entities = %s" % (f, num[f], f, f, want),
+                  q[0].file, q[0].line, sample={"fine": repr(num[f])})
+            on = "FEAT::Geometry::Intern::EntityCounter<FEAT::Geometry::Intern::StandardRefinementTraits, FEAT::Shape::%s, %d, %d>::offset" % (sname(sh), f, D)
+            o = [g for g in facts.functions if g.full == on]
+            if len(o) != 1:
+                ck.incomplete("E10.entity-counter", "%s not in the fact base" % on)
+                continue
+            offs = rt.Arr([None] * (D + 1))
+            coarse = rt.Arr([Lin.atom(("n", d)) for d in range(D + 1)])
+            try:
+                SymEval([facts]).run(o[0], [offs, coarse])
+            except Unsupported as e:
+                ck.incomplete("E10.entity-counter", "%s: %s" % (on, e))
+                continue
+            bad = []
+            for pdim in range(f, D + 1):
+                w = Lin(0)
+                for d in range(f, pdim):
+                    w = w + Lin.atom(("n", d)) * T.rc[(face_shape(sh, d), f)]
+                if offs[pdim] is None or rt.lin(offs[pdim]) != w:
+                    bad.append("offsets[%d] = %s, fine %d-entities created by coarse entities of dimension < %d: %s" % (pdim, offs[pdim], f, pdim, w))
+            ck.ob("E10.entity-counter", "%s/offset%d" % (sname(sh), f), not bad, "; ".join(bad) or "offsets %s" % [repr(x) for x in offs[f:]], o[0].file, o[0].line)
+
+
+# =================================================================================================
+# literal tables and orientation tables (clause 3)
+# =================================================================================================
+
+def extract_tables(T, ck, facts):
+    for f in facts.find(qn_re=r"^FEAT::Geometry::Intern::FaceIndexMapping<.*>::map$"):
+        ta = targs(f.cls)
+        key = (shape_of(ta[0]), int(ta[1]), int(ta[2]))
+        try:
+            T.fim[key] = rt.extract_table2(f)
+            T.fim_fn[key] = f
+        except Unsupported as e:
+            ck.incomplete("E10.face-tables", str(e))
+    for f in facts.find(qn_re=r"^FEAT::Geometry::Intern::CongruencyMapping<.*>::map$"):
+        ta = targs(f.cls)
+        key = (shape_of(ta[0]), int(ta[1]))
+        try:
+            T.cm[key] = rt.extract_table2(f)
+            T.cm_fn[key] = f
+        except Unsupported as e:
+            ck.incomplete("E10.orient-perm", str(e))
+
+
+def check_face_tables(T, ck):
+    """FaceIndexMapping<S,d,0>: every row lists distinct vertices, rows are distinct, counts match
+    FaceTraits; <S,2,1>: edge j of face a is the edge whose vertices are the face's local edge j"""
+    for (sh, cd, fd), rows in sorted(T.fim.items()):
+        fn = T.fim_fn[(sh, cd, fd)]
+        key = "FaceIndexMapping<%s,%d,%d>" % (sname(sh), cd, fd)
+        prob = []
+        if len(rows) != T.ft.get((sh, cd)):
+            prob.append("%d rows, %s has %s %d-faces" % (len(rows), sname(sh), T.ft.get((sh, cd)), cd))
+        nf = T.ft.get((face_shape(sh, cd), fd))
+        nall = T.ft.get((sh, fd))
+        for a, r in enumerate(rows):
+            if len(r) != nf or len(set(r)) != len(r) or any(not (0 <= x < nall) for x in r):
+                prob.append("row %d = %s is not a list of %s distinct %d-faces of the cell" % (a, r, nf, fd))
+        if len({frozenset(r) for r in rows}) != len(rows):
+            prob.append("two rows describe the same face")
+        ck.ob("E10.face-tables", key, not prob, "; ".join(prob) or "%d rows of %d entries" % (len(rows), nf), fn.file, fn.line)
+    for sh in [("H", 3), ("S", 3)]:
+        if not all(k in T.fim for k in [(sh, 2, 1), (sh, 2, 0), (sh, 1, 0), ((sh[0], 2), 1, 0)]):
+            ck.incomplete("E10.face-tables", "FaceIndexMapping tables of %s incomplete" % sname(sh))
+            continue
+        fn = T.fim_fn[(sh, 2, 1)]
+        edges = {frozenset(r): e for e, r in enumerate(T.fim[(sh, 1, 0)])}
+        for a, row in enumerate(T.fim[(sh, 2, 1)]):
+            fv = T.fim[(sh, 2, 0)][a]
+            for j, e in enumerate(row):
+                loc = T.fim[((sh[0], 2), 1, 0)][j]
+                vs = frozenset(fv[x] for x in loc)
+                want = edges.get(vs)
+                ck.ob("E10.face-tables", "FaceIndexMapping<%s,2,1>/face%d/edge%d" % (sname(sh), a, j), want == e,
+                      "entry %d; local edge %d of face %d has the cell vertices %s = cell edge %s" % (e, j, a, sorted(vs), want), fn.file, fn.line)
+
+
+def perm_str(p):
+    return "(" + ",".join(map(str, p)) + ")"
+
+
+def check_orientation_tables(T, ck, facts):
+    for sh in [("H", 1), ("S", 1), ("H", 2), ("S", 2)]:
+        rows = T.cm.get((sh, 0))
+        if rows is None:
+            ck.incomplete("E10.sampler-code", "CongruencyMapping<%s,0> not extracted" % sname(sh))
+            continue
+        syms = T.syms[sh]
+        comps = [f for f in facts.functions if f.tk != "pattern" and f.qn == "FEAT::Geometry::Intern::CongruencySampler<FEAT::Shape::%s>::compare" % sname(sh)]
+        if not comps:
+            ck.incomplete("E10.sampler-code", "no instantiation of CongruencySampler<%s>::compare" % sname(sh))
+            continue
+        codes_of = {}
+        for cf in comps:
+            srcty = cf.type(cf.params[0]["t"])
+            m = re.search(r"(SubIndexMapping|TargetIndexMapping)<FEAT::Shape::(\w+<\d>), (\d)(?:, (\d))?>", srcty)
+            tag = "%s<%s>" % (m.group(1), ",".join(x for x in m.groups()[1:] if x)) if m else srcty[-40:]
+            try:
+                paths = T.sampler_paths(cf)
+            except Unsupported as e:
+                ck.incomplete("E10.sampler-code", str(e))
+                continue
+            nv = T.ft[(sh, 0)]
+            trg = tuple(100 + k for k in range(nv))
+            for p in syms:
+                src = tuple(trg[p[k]] for k in range(nv))      # src[k] == trg[p(k)]
+                try:
+                    code = rt.decide(paths, src, trg)
+                except Unsupported as e:
+                    ck.incomplete("E10.sampler-code", "%s: %s" % (cf.full, e))
+                    break
+                okc = code is not None and 0 <= code < len(rows) and tuple(rows[code]) == tuple(p)
+                row = rows[code] if code is not None and 0 <= code < len(rows) else None
+                ck.ob("E10.sampler-code", "%s/src=trg*%s/%s" % (sname(sh), perm_str(p), tag), okc,
+                      "compare returns %s for src[k]==trg[p(k)], p=%s; CongruencyMapping<%s,0> row %s = %s" % (code, perm_str(p), sname(sh), code, row), cf.file, cf.line)
+                if okc:
+                    codes_of[p] = code
+        fn0 = T.cm_fn[(sh, 0)]
+        for p in syms:
+            code = codes_of.get(p)
+            if code is None:
+                continue
+            r = rows[code]
+            ck.ob("E10.orient-perm", "CongruencyMapping<%s,0>/row%d" % (sname(sh), code), sorted(r) == list(range(len(r))) and tuple(r) in set(syms),
+                  "row %d = %s is %sa symmetry of the shape" % (code, r, "" if tuple(r) in set(syms) else "not "), fn0.file, fn0.line)
+        if sh[1] == 2:
+            erows = T.cm.get((sh, 1))
+            if erows is None:
+                ck.incomplete("E10.edge-map", "CongruencyMapping<%s,1> not extracted" % sname(sh))
+                continue
+            fn1 = T.cm_fn[(sh, 1)]
+            fim = T.fim[(sh, 1, 0)]
+            eid = {frozenset(r): e for e, r in enumerate(fim)}
+            for p, code in sorted(codes_of.items(), key=lambda t: t[1]):
+                for j, r in enumerate(fim):
+                    want = eid.get(frozenset(p[v] for v in r))
+                    got = erows[code][j] if code < len(erows) and j < len(erows[code]) else None
+                    ck.ob("E10.edge-map", "CongruencyMapping<%s,1>/row%d/edge%d" % (sname(sh), code, j), got == want,
+                          "entry %s; vertex row %s maps edge %d = vertices %s onto vertices %s = edge %s" % (got, list(p), j, r, [p[v] for v in r], want), fn1.file, fn1.line)
+
+
+# =================================================================================================
+# whole-wrapper symbolic runs: numbering agreement, vertex refiners (clauses 1 and 4)
+# =================================================================================================
+
+def find_full(facts, full):
+    fs = [f for f in facts.functions if f.full == full and f.tk != "pattern"]
+    return fs[0] if len(fs) >= 1 else None
+
+
+def short(cls):
+    return re.sub(r"\bFEAT::|\bGeometry::|\bIntern::|\bShape::", "", cls or "")
+
+
+def report_asserts(ck, ev, what):
+    """assertions met in a symbolic run whose condition is decidable must hold"""
+    for node, val, fn in ev.asserts:
+        if isinstance(val, bool) or (isinstance(val, Lin) and val.is_const()):
+            ok = bool(val) if isinstance(val, bool) else val.c != 0
+            txt = node["a"][1].get("v") if len(node.get("a", [])) > 1 else "?"
+            ck.ob("E10.assert-true", "%s/%s/%s" % (what, short(fn.cls) or fn.name, txt), ok,
+                  "XASSERT(%s) evaluates to %s for every mesh" % (txt, ok), fn.file, node.get("l"))
+
+
+def split_row(row):
+    """row = base + c*loop + k  ->  (loop atom, c, k, base)"""
+    la = [a for a in row.t if a[0] == "loop"]
+    if len(la) != 1:
+        raise Unsupported("output row %s does not contain exactly one loop counter" % row)
+    base = Lin(0, {a: k for a, k in row.t.items() if a[0] != "loop"})
+    return la[0], row.t[la[0]], row.c, base
+
+
+def loop_dim(ev, atom, kinds=("num",)):
+    b = ev.loops[atom[1]]["bound"]
+    if b.c == 0 and len(b.t) == 1:
+        a, k = list(b.t.items())[0]
+        if k == 1 and a[0] in kinds:
+            return a[-1]
+    raise Unsupported("loop bound %s is not an entity count" % b)
+
+
+def run_vertex_wrappers(T, ck, facts):
+    """-> {shape: {origin dim p: base Lin of the fine vertex numbers}}"""
+    out = {}
+    for sh in SHAPES:
+        fns = [f for f in facts.functions if f.tk != "pattern" and f.name == "refine" and
+               re.match(r"^FEAT::Geometry::Intern::StandardVertexRefineWrapper<FEAT::Shape::%s, " % re.escape(sname(sh)), f.cls)]
+        if not fns:
+            ck.incomplete("E10.vertex-mean", "StandardVertexRefineWrapper<%s,...>::refine not instantiated" % sname(sh))
+            continue
+        for fn in fns:
+            vs = targs(fn.cls)[1].rsplit("::", 1)[-1]
+            ctx = Ctx()
+            ev = make_eval(facts, ctx)
+            try:
+                ret = ev.run(fn, [VOut(ctx), VIn(ctx), Holder(ctx, "in")])
+                bases = {}
+                for key, acc in sorted(ctx.vtx.items()):
+                    atom, c, k, base = split_row(acc.row)
+                    p = loop_dim(ev, atom)
+                    inst = "%s/%s/from-%d-entities" % (sname(sh), vs, p)
+                    prob = list(acc.problems)
+                    if c != 1 or k != 0:
+                        prob.append("output vertex row %s is not base + i" % acc.row)
+                    if acc.coef is None:
+                        prob.append("output vertex never defined")
+                    elif p == 0:
+                        if acc.coef != {Lin.atom(atom): Fraction(1)}:
+                            prob.append("coarse vertex i is not copied: %s" % acc.coef)
+                    else:
+                        nv = T.ft[(face_shape(sh, p), 0)]
+                        want = {Lin.atom(("ent", "in", p, 0, repr(Lin.atom(atom)), kk)): Fraction(1, nv) for kk in range(nv)}
+                        if acc.coef != want:
+                            got = ", ".join("%s*x[%s]" % (v, kx) for kx, v in sorted(acc.coef.items(), key=repr))
+                            prob.append("new vertex = %s, expected the mean of the %d vertices of coarse %d-entity i (sum of coefficients %s)" % (got, nv, p, sum(acc.coef.values())))
+                    ck.ob("E10.vertex-mean", inst, not prob, "; ".join(prob) or ("copy of coarse vertex i" if p == 0 else "mean of the %d vertices of the coarse entity" % T.ft[(face_shape(sh, p), 0)]),
+                          fn.file, acc.line)
+                    bases[p] = base
+                want_ret = Lin(0)
+                for p in range(sh[1] + 1):
+                    want_ret = want_ret + Lin.atom(("num", "in", p)) * T.rc[(face_shape(sh, p), 0)]
+                ck.ob("E10.vertex-mean", "%s/%s/count" % (sname(sh), vs), ret is not None and rt.lin(ret) == want_ret and
+                      set(bases) == {p for p in range(sh[1] + 1) if T.rc[(face_shape(sh, p), 0)] > 0},
+                      "returns %s fine vertices (expected %s); vertices created from coarse entities of dimensions %s" % (ret, want_ret, sorted(bases)), fn.file, fn.line)
+                report_asserts(ck, ev, "vertex/%s/%s" % (sname(sh), vs))
+                if sh in out and out[sh] != bases:
+                    ck.ob("E10.numbering", "%s/vertices/%s" % (sname(sh), vs), False, "vertex numbering differs between vertex set types: %s vs %s" % (out[sh], bases), fn.file, fn.line)
+                out.setdefault(sh, bases)
+            except Unsupported as e:
+                ck.incomplete("E10.vertex-mean", "%s: %s" % (fn.cls, e))
+    return out
+
+
+def run_index_wrapper(T, ck, facts, sh, vbases):
+    """symbolic run of IndexRefineWrapper<Shape>::refine: global number of the fine cd-entity k of coarse p-entity i
+    as defined by the output rows  ==  as referenced in the values (index_offsets from EntityCounter)"""
+    D = sh[1]
+    full = "FEAT::Geometry::Intern::IndexRefineWrapper<FEAT::Shape::%s, %d>::refine" % (sname(sh), D)
+    fn = find_full(facts, full)
+    if fn is None:
+        ck.incomplete("E10.numbering", "%s not in the fact base" % full)
+        return None
+    ctx = Ctx()
+    ev = make_eval(facts, ctx)
+    num = rt.Arr([Lin.atom(("num", "in", d)) for d in range(D + 1)])
+    try:
+        ev.run(fn, [HolderOut(ctx), num, Holder(ctx, "in")])
+        G = {}
+        uses = {}
+        for row, j, val, line, inloop, tag in ctx.writes:
+            if tag is None:
+                raise Unsupported("write to an untagged index set (line %s)" % line)
+            cd, fd = tag
+            atom, c, k, base = split_row(row)
+            p = loop_dim(ev, atom)
+            G.setdefault((cd, p), {}).setdefault(base, []).append((fd, line))
+            v = rt.lin(val)
+            O = Lin(0, {a: kk for a, kk in v.t.items() if a[0] not in ("loop", "ent", "sim")})
+            par = [a for a in v.t if a[0] in ("loop", "ent")]
+            if len(par) != 1:
+                raise Unsupported("value %s at line %s has no unique parent entity" % (v, line))
+            origin = p if par[0][0] == "loop" else par[0][3]
+            uses.setdefault((fd, origin), {}).setdefault(O, []).append(line)
+    except Unsupported as e:
+        ck.incomplete("E10.numbering", "%s: %s" % (full, e))
+        return None
+    report_asserts(ck, ev, "index/%s" % sname(sh))
+    numbering = {}
+    for (cd, p), bases in sorted(G.items()):
+        okb = len(bases) == 1
+        b = list(bases)[0]
+        ck.ob("E10.numbering", "%s/%d-entities/origin%d/rows" % (sname(sh), cd, p), okb,
+              "all index sets <%d,*> place the children of the coarse %d-entities at rows %s + c*i + k" % (cd, p, b) if okb else
+              "index sets of fine %d-entities disagree on the first row of the children of coarse %d-entities: %s" % (cd, p, {repr(x): y[:2] for x, y in bases.items()}), fn.file, fn.line)
+        numbering[(cd, p)] = b
+    for p, b in (vbases or {}).items():
+        numbering[(0, p)] = b
+    for (fd, p), offs in sorted(uses.items()):
+        want = numbering.get((fd, p))
+        for O, lines in sorted(offs.items(), key=repr):
+            ck.ob("E10.numbering", "%s/%d-entities/origin%d/used-offset=%s" % (sname(sh), fd, p, O), want is not None and O == want,
+                  "index_offsets[%d] = %s where fine %d-entities are referenced (%d values, e.g. line %s); the fine %d-entities of coarse %d-entities are numbered from %s" % (
+                      p, O, fd, len(lines), lines[0], fd, p, want), featlib.repo_path("kernel/geometry/intern/standard_index_refiner.hpp"), lines[0])
+    return numbering
+
+
+# =================================================================================================
+# mesh parts: StandardTargetRefiner (clause 5)
+# =================================================================================================
+
+def subst(l, f):
+    out = Lin(l.c)
+    for a, k in l.t.items():
+        out = out + Lin.atom(f(a)) * k
+    return out
+
+
+def check_targets(T, ck, facts, numbering):
+    tts = {}
+    for f in facts.find(qn_re=r"^FEAT::Geometry::Intern::StandardTargetRefiner<.*>::refine$"):
+        if f.tk == "pattern":
+            continue
+        ta = targs(f.cls)
+        sh, cd = shape_of(ta[0]), int(ta[1])
+        if sh == ("V", 0):
+            continue    # decided through the whole-wrapper run (its `offset` argument is the literal 0)
+        name = "StandardTargetRefiner<%s,%d>" % (sname(sh), cd)
+        try:
+            tt = extract_target_template(facts, f)
+        except Unsupported as e:
+            ck.incomplete("E10.target-form", "%s: %s" % (name, e))
+            continue
+        dim = sh[1]
+        if dim == 3:
+            # the repository does not implement 3D parts (XASSERT num_cells == 0); nothing to decide
+            if tt.ctx.writes:
+                ck.incomplete("E10.target-form", "%s writes targets: 3D mesh-part cells are not analysed" % name)
+            else:
+                ck.note("%s: no targets written (repository aborts for parts with 3D cells) - not covered" % name)
+            continue
+        c = T.rc[(sh, cd)]
+        prob = []
+        slots = {}
+        if c == 0:
+            if tt.ctx.writes:
+                prob.append("writes targets although a %s creates no %d-entities" % (sname(sh), cd))
+            ck.ob("E10.target-form", name, not prob, "; ".join(prob) or "nothing to create", f.file, f.line)
+            continue
+        if len(tt.loops) != 1 or tt.loops[0]["bound"] != Lin.atom(("tnum", dim)):
+            prob.append("not a single loop over the part's %d-entities" % dim)
+        else:
+            i_atom = tt.loops[0]["atom"]
+            for row, j, val, line, inloop, tag in tt.ctx.writes:
+                rest = row - Lin.atom(("offset",)) - Lin.atom(i_atom) * c
+                if not rest.is_const() or not inloop:
+                    prob.append("output row %s (line %s) is not offset + %d*i + k" % (row, line, c))
+                    continue
+                slots.setdefault(rest.c, []).append((rt.lin(val), line))
+            for k in range(c):
+                if len(slots.get(k, [])) != 1:
+                    prob.append("child %d assigned %d times" % (k, len(slots.get(k, []))))
+            for k in slots:
+                if not (0 <= k < c):
+                    prob.append("child %d does not exist" % k)
+        ck.ob("E10.target-form", name, not prob, "; ".join(prob) or "out[offset + %d*i + k], k<%d" % (c, c), f.file, f.line)
+        if prob:
+            continue
+        tt.children = {}
+        usable = True
+        for k in range(c):
+            v, line = slots[k][0]
+            pr = None
+            offs = [a for a in v.t if a[0] == "off"]
+            tg = [a for a in v.t if a[0] == "tgt"]
+            tims = [a for a in v.t if a[0] == "tim"]
+            other = [a for a in v.t if a[0] not in ("off", "tgt", "tim")]
+            child = None
+            if other:
+                ck.incomplete("E10.target-form", "%s child %d: unexpected term in %s" % (name, k, v))
+                usable = False
+                continue
+            if len(offs) != 1 or v.t[offs[0]] != 1 or offs[0][1] != dim:
+                pr = "value %s does not add index_offsets[%d] (offset of the fine %d-entities created by the parent's %d-entities)" % (v, dim, cd, dim)
+            elif len(tg) != 1 or tg[0][1] != dim or tt.ctx.rows[tg[0][2]] != Lin.atom(tt.loops[0]["atom"]) or v.t[tg[0]] != c:
+                pr = "value %s is not %d*target<%d>[i] + child" % (v, c, dim)
+            elif len(tims) > 1 or (tims and (v.t[tims[0]] != 1 or v.c != 0)):
+                pr = "value %s mixes orientation lookups and constants" % v
+            elif tims:
+                tim = tt.ctx.sims[tims[0][1]]
+                ta2 = targs(tim.cls)
+                okargs = (tim.kind == "tim" and shape_of(ta2[0]) == sh and len(tim.args) == 3 and isinstance(tim.args[0], IdxRow) and isinstance(tim.args[1], IdxRow)
+                          and isinstance(tim.args[2], TgtSet) and tim.args[2].d == 0
+                          and (tim.args[0].iset.tag, tim.args[0].iset.cd, tim.args[0].iset.fd) == ("trg", dim, 0)
+                          and (tim.args[1].iset.tag, tim.args[1].iset.cd, tim.args[1].iset.fd) == ("src", dim, 0)
+                          and tim.args[0].row == Lin.atom(("tgt", dim, repr(Lin.atom(tt.loops[0]["atom"])))) and tim.args[1].row == Lin.atom(tt.loops[0]["atom"]))
+                if not okargs:
+                    pr = "TargetIndexMapping at line %s is not built from (parent's vertices of target<%d>[i], part's vertices of entity i, vertex targets): %r" % (tim.line, dim, tim.args)
+                else:
+                    child = ("tim", tim, tims[0][2])
+            else:
+                if not (0 <= v.c < c):
+                    pr = "child number %d is not below %d" % (v.c, c)
+                else:
+                    child = ("const", v.c)
+            ck.ob("E10.target-form", "%s/child%d" % (name, k), pr is None, pr or repr(v), f.file, line)
+            if pr is None:
+                tt.children[k] = child
+            else:
+                usable = False
+        if usable and cd >= 1:
+            tts[(sh, cd)] = tt
+    # ---- semantic check: the fine part entity and its target have corresponding vertices --------------
+    for (sh, cd), tt in sorted(tts.items()):
+        dim = sh[1]
+        nv = T.ft[(sh, 0)]
+        ident = tuple(range(nv))
+        for p in T.syms[sh]:
+            t = [None] * nv
+            for k in range(nv):
+                t[p[k]] = k          # part vertex k (-> same parent vertex) is the parent's local vertex p(k)
+            part = RefMesh(T, sh)
+            par = RefMesh(T, sh, cell=t)
+            for k in range(T.rc[(sh, cd)]):
+                key = "%s/%d-child%d/parent-numbering%s" % (sname(sh), cd, k, perm_str(tuple(t)))
+                line = tt.fn.line
+                try:
+                    ch = tt.children[k]
+                    if ch[0] == "const":
+                        kk = ch[1]
+                    else:
+                        model = map_model(T, ch[1].cls, "tim")
+                        kk = model_eval(T, model, (ch[2],), {"tv": tuple(t), "sv": ident, "vi": ident})
+                    A = set(fine_verts(T, part, (cd, dim, part.cell_id, k)))
+                    B = set(fine_verts(T, par, (cd, dim, par.cell_id, kk)))
+                    if part.consulted or par.consulted:
+                        raise Unsupported("vertex lists of the children depend on sub-entity orientations")
+                    ok = A == B
+                    detail = "part child %d -> parent child %d; vertices {%s} vs {%s}" % (k, kk, ", ".join(sorted(fmt_ent(x) for x in A)), ", ".join(sorted(fmt_ent(x) for x in B)))
+                except Bad as e:
+                    ok, detail = False, str(e)
+                except Unsupported as e:
+                    ck.incomplete("E10.target-child", "%s: %s" % (key, e))
+                    continue
+                ck.ob("E10.target-child", key, ok, detail, tt.fn.file, line)
+    # ---- whole wrapper: rows follow the part's own fine numbering, values the parent's ---------------
+    for sh in SHAPES:
+        D = sh[1]
+        full = "FEAT::Geometry::Intern::TargetRefineWrapper<FEAT::Shape::%s, %d>::refine" % (sname(sh), D)
+        fn = find_full(facts, full)
+        nb = numbering.get(sh)
+        if fn is None or nb is None:
+            ck.incomplete("E10.target-numbering", "%s not analysable" % full)
+            continue
+        ctx = Ctx()
+        ev = make_eval(facts, ctx)
+        ntrg = rt.Arr([Lin.atom(("np", d)) for d in range(D + 1)])
+        try:
+            ev.run(fn, [THolderOut(ctx), ntrg, THolder(ctx), Holder(ctx, "src"), Holder(ctx, "trg")])
+            seen = {}
+            for row, j, val, line, inloop, tag in ctx.writes:
+                atom, c, k, base = split_row(row)
+                p = loop_dim(ev, atom, kinds=("tnum",))
+                v = rt.lin(val)
+                O = Lin(0, {a: kk for a, kk in v.t.items() if a[0] not in ("tgt", "tim")})
+                tg = [a for a in v.t if a[0] == "tgt"]
+                if len(tg) != 1 or tt_row(ctx, tg[0]) != Lin.atom(atom) or tg[0][1] != p:
+                    raise Unsupported("value %s (line %s) is not based on target<%d>[i]" % (v, line, p))
+                seen.setdefault((tag, p), set()).add((base, O, line))
+        except Unsupported as e:
+            ck.incomplete("E10.target-numbering", "%s: %s" % (full, e))
+            continue
+        report_asserts(ck, ev, "target/%s" % sname(sh))
+        for (cd, p), items in sorted(seen.items()):
+            want = nb.get((cd, p))
+            wrow = subst(want, lambda a: ("tnum", a[2])) if want is not None else None
+            wval = subst(want, lambda a: ("np", a[2])) if want is not None else None
+            pairs = sorted({(b, o) for b, o, _ in items}, key=repr)
+            bad = [(b, o) for b, o in pairs if want is None or b != wrow or o != wval]
+            line = sorted(l for _, _, l in items)[0]
+            b, o = (bad or pairs)[0]
+            ck.ob("E10.target-numbering", "%s/%d-entities/origin%d" % (sname(sh), cd, p), not bad,
+                  "targets of the fine %d-entities of the part's %d-entities are stored from row %s (part's own numbering: %s) and point to parent entities numbered from %s (parent's numbering: %s)" % (
+                      cd, p, b, wrow, o, wval), fn.file, line)
+
+
+def check_simple_targets(T, ck, facts, numbering):
+    """parts without topology (SimpleTargetRefineWrapper): the fine entities of part entity i are mapped onto all
+    fine entities of the parent entity target[i]"""
+    for sh in SHAPES:
+        D = sh[1]
+        full = "FEAT::Geometry::Intern::SimpleTargetRefineWrapper<FEAT::Shape::%s, %d>::refine" % (sname(sh), D)
+        fn = find_full(facts, full)
+        nb = numbering.get(sh)
+        if fn is None or nb is None:
+            ck.incomplete("E10.simple-target", "%s not analysable" % full)
+            continue
+        ctx = Ctx()
+        ev = make_eval(facts, ctx)
+        ntrg = rt.Arr([Lin.atom(("np", d)) for d in range(D + 1)])
+        try:
+            ev.run(fn, [THolderOut(ctx), ntrg, THolder(ctx)])
+            seen = {}
+            for row, j, val, line, inloop, tag in ctx.writes:
+                atom, c, k, base = split_row(row)
+                p = loop_dim(ev, atom, kinds=("tnum",))
+                v = rt.lin(val)
+                tg = [a for a in v.t if a[0] == "tgt"]
+                if len(tg) != 1 or tt_row(ctx, tg[0]) != Lin.atom(atom) or tg[0][1] != p:
+                    raise Unsupported("value %s (line %s) is not based on target<%d>[i]" % (v, line, p))
+                O = Lin(0, {a: kk for a, kk in v.t.items() if a[0] != "tgt"})
+                seen.setdefault((tag, p), []).append((c, k, base, v.t[tg[0]], v.c, O, line))
+        except Unsupported as e:
+            ck.incomplete("E10.simple-target", "%s: %s" % (full, e))
+            continue
+        for (cd, p), items in sorted(seen.items()):
+            want = nb.get((cd, p))
+            n = T.rc[(face_shape(sh, p), cd)]
+            wrow = subst(want, lambda a: ("tnum", a[2])) if want is not None else None
+            wval = subst(want, lambda a: ("np", a[2])) if want is not None else None
+            prob = []
+            if want is None:
+                prob.append("no fine %d-entities of coarse %d-entities in the mesh numbering" % (cd, p))
+            for c, k, base, m, ch, O, line in items:
+                if c != n or m != n or base != wrow or O != wval:
+                    prob.append("line %s: out[%s + %d*i + %d] = %s + %d*target[i] + %d, expected rows from %s, values from %s, stride %d" % (line, base, c, k, O, m, ch, wrow, wval, n))
+            if sorted(k for _, k, *_r in items) != list(range(n)) or sorted(it[4] for it in items) != list(range(n)):
+                prob.append("children written %s -> children referenced %s, expected a bijection of 0..%d" % (sorted(it[1] for it in items), sorted(it[4] for it in items), n - 1))
+            ck.ob("E10.simple-target", "%s/%d-entities/origin%d" % (sname(sh), cd, p), not prob, "; ".join(prob[:3]) or
+                  "%d children of part entity i -> the %d children of parent entity target[i]; rows from %s, values from %s" % (n, n, wrow, wval), fn.file, items[0][6])
+
+
+def tt_row(ctx, atom):
+    return ctx.rows.get(atom[2])
+
+
+# =================================================================================================
+# geometry of the children on the reference cell (orientation, volume)
+# =================================================================================================
+
+def det(m):
+    n = len(m)
+    if n == 1:
+        return m[0][0]
+    if n == 2:
+        return m[0][0] * m[1][1] - m[0][1] * m[1][0]
+    s = Fraction(0)
+    for j in range(n):
+        minor = [row[:j] + row[j + 1:] for row in m[1:]]
+        s += (-1) ** j * m[0][j] * det(minor)
+    return s
+
+
+def check_child_geometry(T, ck, facts):
+    """the fine cells of the reference cell (vertex coordinates = means, see E10.vertex-mean) have the orientation
+    sign of the coarse cell and their volumes add up to the coarse volume"""
+    for sh in SHAPES:
+        D = sh[1]
+        key0 = sname(sh)
+        full = "FEAT::Shape::ReferenceCell<FEAT::Shape::%s>::vertex<int>" % sname(sh)
+        fn = find_full(facts, full)
+        tm = T.tmpl.get((sh, D, 0))
+        if fn is None or tm is None or not tm.usable:
+            ck.incomplete("E10.child-orientation", "%s: reference cell or template %s not available" % (key0, tname(sh, D, 0)))
+            continue
+        nv = T.ft[(sh, 0)]
+        try:
+            ev = SymEval([facts])
+            X = {v: [Fraction(rt.lin(ev.run(fn, [Lin(v), Lin(c)])).as_int()) for c in range(D)] for v in range(nv)}
+        except Unsupported as e:
+            ck.incomplete("E10.child-orientation", "%s: %s" % (full, e))
+            continue
+
+        def coord(fv):
+            pid = fv[2]
+            vs = sorted(pid) if isinstance(pid, frozenset) else [pid]
+            return [sum(X[v][c] for v in vs) / len(vs) for c in range(D)]
+
+        def signed(V):
+            if sh[0] == "S":
+                rows = [[V[j + 1][c] - V[0][c] for c in range(D)] for j in range(D)]
+                return det(rows) / Fraction(__import__("math").factorial(D))
+            rows = [[V[1 << j][c] - V[0][c] for c in range(D)] for j in range(D)]
+            return det(rows)
+        parent = signed([X[v] for v in range(nv)])
+        mesh = RefMesh(T, sh)
+        total = Fraction(0)
+        okall = parent != 0
+        for k in range(T.rc[(sh, D)]):
+            try:
+                V = [coord(fv) for fv in fine_verts(T, mesh, (D, D, mesh.cell_id, k))]
+            except (Bad, Unsupported) as e:
+                ck.incomplete("E10.child-orientation", "%s child %d: %s" % (key0, k, e))
+                okall = False
+                continue
+            vol = signed(V)
+            total += abs(vol)
+            ck.ob("E10.child-orientation", "%s/child%d" % (key0, k), vol * parent > 0,
+                  "signed volume %s on the reference cell (coarse cell: %s)" % (vol, parent), tm.fn.file, tm.slots[(k, 0)].line)
+        if okall:
+            ck.ob("E10.child-volume", key0, total == abs(parent), "volumes of the %d children add up to %s, coarse reference cell %s" % (T.rc[(sh, D)], total, abs(parent)), tm.fn.file, tm.fn.line)
+
+
+# =================================================================================================
+# run
+# =================================================================================================
+
+def declare_rules(ck):
+    ck.rule("E10.traits-euler", "for every shape the fine entities created inside one coarse entity have alternating sum (-1)^dim, so refinement "
+            "leaves the Euler characteristic of every conforming mesh unchanged (breaks for any mesh containing that shape)", min_instances=7)
+    ck.rule("E10.cube-counts", "StandardRefinementTraits<Hypercube<d>|Simplex<1>, f>::count = 2^f*C(d,f), the closed formula of regular refinement", min_instances=11)
+    ck.rule("E10.entity-counter", "EntityCountWrapper::query and EntityCounter::offset, symbolic in the coarse counts n_d: fine n_f = sum_{d>=f} count<d-face,f>*n_d "
+            "(coarse counts, not already refined ones), offsets[p] = fine f-entities created by coarse entities of dimension < p (any mesh with >0 entities breaks otherwise)", min_instances=36)
+    ck.rule("E10.template-form", "StandardIndexRefiner<Shape,cd,fd>::refine is one loop over the coarse Shape entities writing out[offset + c*i + k], "
+            "c = StandardRefinementTraits<Shape,cd>::count, and returns c*num (any mesh with a cell of that shape breaks otherwise)", min_instances=20)
+    ck.rule("E10.slot-once", "every index out[offset+c*i+k][j], k<c, j<number of fd-faces of a cd-cell, is assigned exactly once, nothing else is written", min_instances=20)
+    ck.rule("E10.slot-origin", "every written value is index_offsets[p] + m*(coarse p-entity) + child with p the dimension of that entity, m the number of fine fd-entities "
+            "a coarse p-entity creates, child<m either constant or SubIndexMapping(vertices, p-faces of cell i, vertices-at-p-face).map(same local face, .)", min_instances=670)
+    ck.rule("E10.face-tables", "FaceIndexMapping tables: rows are distinct faces with distinct vertices, row counts = FaceTraits; edges-at-face rows agree with "
+            "vertices-at-face and vertices-at-edge (3D)", min_instances=8 + 36)
+    ck.rule("E10.sampler-code", "CongruencySampler<S>::compare (every path of its decision tree) returns code o exactly when src[k]==trg[CongruencyMapping<S,0>(o,k)], "
+            "for every symmetry of the shape (an entity numbered by that symmetry relative to its parent's view gets wrong children otherwise)", min_instances=62)
+    ck.rule("E10.orient-perm", "rows of CongruencyMapping<S,0> the sampler can return are symmetries (permutations) of the shape", min_instances=18)
+    ck.rule("E10.edge-map", "CongruencyMapping<S,1> row o is the edge permutation induced by the vertex row o through FaceIndexMapping<S,1,0>", min_instances=50)
+    ck.rule("E10.incidence", "reference cell, every orientation of its faces/edges: the fine entity named by faces_at_cell[c][j] has exactly the vertices of local face j "
+            "of fine cell c (vertices through the <.,d,0> templates of the coarse cell, face or edge that created it)", min_instances=388)
+    ck.rule("E10.facet-count", "reference cell, every orientation: every fine facet inside the coarse cell is referenced by exactly two fine cells, every child of a coarse "
+            "boundary facet by exactly one (so interior facets of the fine mesh have two, boundary facets one adjacent cell)", min_instances=27)
+    ck.rule("E10.numbering", "whole IndexRefineWrapper<Shape> run, symbolic in the coarse counts: all index sets <cd,*> store the children of coarse p-entities from the same row, "
+            "and every value referencing a fine fd-entity of a coarse p-entity adds exactly the row/vertex number where those entities start (EntityCounter offsets = running offsets of the shape wrappers = vertex refiner offsets)", min_instances=50)
+    ck.rule("E10.assert-true", "XASSERTs met in the symbolic wrapper runs whose condition is decidable hold for every mesh (otherwise refinement aborts)", min_instances=62)
+    ck.rule("E10.vertex-mean", "StandardVertexRefiner: coarse vertices are copied; the vertex created by a coarse entity is cleared first and then the arithmetic mean of all vertices of "
+            "that entity (equal coefficients summing to 1); returned counts = StandardRefinementTraits<.,0>::count*num", min_instances=29 + 12)
+    ck.rule("E10.target-form", "StandardTargetRefiner<Shape,cd> (1D/2D shapes): out[offset + c*i + k] = index_offsets[dim Shape] + c*target[i] + child, c = number of fine cd-entities of the shape, "
+            "child<c constant or TargetIndexMapping(parent's vertices of target[i], part's vertices of i, vertex targets).map(k)", min_instances=32)
+    ck.rule("E10.target-child", "for every relative numbering (symmetry) of a part entity and its parent entity: the vertices (through the vertex targets) of fine part entity k are the vertices of "
+            "the parent's fine entity it is mapped to - same child numbering as the index refiner of that shape", min_instances=114)
+    ck.rule("E10.target-numbering", "whole TargetRefineWrapper<Shape> run: target rows follow the part's own fine numbering, target values the parent's fine numbering (both = numbering of E10.numbering)", min_instances=28)
+    ck.rule("E10.simple-target", "parts without topology (SimpleTargetRefineWrapper run): the fine cd-entities of part entity i are stored at the part's own fine numbering and mapped bijectively "
+            "onto the children of parent entity target[i] in the parent's fine numbering", min_instances=36)
+    ck.rule("E10.callsite-roles", "call sites in StandardRefinery / TargetSetRefineParentWrapper: index/vertex refinement gets the coarse counts (never the array refined by EntityCountWrapper::query) "
+            "and the sets of the same coarse mesh; target refinement gets the parent's counts and topology as target and the part's topology/target sets as source (a swap compiles: same types)", min_instances=72)
+    ck.rule("E10.child-orientation", "on the reference cell (new vertices = means) every fine cell of the vertices-at-cell template has the orientation sign of the coarse cell "
+            "(otherwise every affine cell of that shape gets children with negative Jacobian determinant)", min_instances=32)
+    ck.rule("E10.child-volume", "the volumes of the fine cells of one reference cell add up to its volume (total volume preserved on affine cells)", min_instances=6)
+    if ck.tier == "thorough":
+        ck.rule("E10.build-same", "the anchored functions instantiated by the repository's own refinement tests are (structurally) the functions analysed in the driver TU", min_instances=5)
+    ck.rule("E10.no-orphan", "every fine entity of lower dimension created in the closure of the coarse cell is referenced by some fine cell", min_instances=83)
+
+
+# =================================================================================================
+# call sites of the wrappers in the refineries (argument roles, E1)
+# =================================================================================================
+
+def local_inits(fn):
+    out = {}
+    for n in fn.nodes():
+        if n.get("k") == "Var" and n.get("init") is not None:
+            out[n["d"]] = n["init"]
+    return out
+
+
+def provenance(n, fn, inits, depth=0):
+    """root object an expression is derived from: (('param'|'member'|'local', name), (accessor methods...))"""
+    if n is None or depth > 12:
+        return None
+    k = n.get("k")
+    if k == "Cast":
+        return provenance(n["e"], fn, inits, depth + 1)
+    if k == "Un" and n.get("op") in ("*", "&"):
+        return provenance(n["e"], fn, inits, depth + 1)
+    if k == "Ref":
+        if n.get("dk") == "param":
+            return (("param", n["n"]), ())
+        if n.get("dk") == "local":
+            if n["d"] in inits:
+                return provenance(inits[n["d"]], fn, inits, depth + 1)
+            return (("local", n["n"], n["d"]), ())
+        return None
+    if k == "Member" and n.get("b", {}).get("k") == "This":
+        return (("member", n["n"]), ())
+    if k == "MCall" and n.get("obj") is not None:
+        r = provenance(n["obj"], fn, inits, depth + 1)
+        if r is None:
+            return None
+        return (r[0], r[1] + (n.get("n"),))
+    return None
+
+
+def array_sources(fns, is_array):
+    """provenances of everything assigned to elements of an array (over several functions)"""
+    out = []
+    for fn in fns:
+        inits = local_inits(fn)
+        for n in fn.nodes():
+            if n.get("k") != "Assign":
+                continue
+            targets = []
+            cur = n
+            while cur.get("k") == "Assign":      # a[i] = b[i] = value
+                targets.append(cur["lhs"])
+                cur = cur["rhs"]
+            for t in targets:
+                if t.get("k") == "Index" and is_array(t["b"]):
+                    out.append((provenance(cur, fn, inits), n.get("l")))
+    return out
+
+
+def check_callsites(ck, facts):
+    """E1: the wrappers receive the part's / parent's / coarse mesh's data in the documented parameter slots"""
+    def arg_by_name(call, name):
+        pn = call.get("pn", [])
+        return call["a"][pn.index(name)] if name in pn and pn.index(name) < len(call.get("a", [])) else None
+
+    for f in facts.functions:
+        if f.tk == "pattern" or f.body is None:
+            continue
+        if not (f.name in ("fill_target_sets", "fill_index_sets", "fill_vertex_set") or (f.d.get("ctor") and f.cls.startswith("FEAT::Geometry::StandardRefinery<"))):
+            continue
+        inits = local_inits(f)
+        # (A) target set refinement: parent's counts and topology vs. the part's topology and target sets
+        if f.name == "fill_target_sets" and "TargetSetRefineParentWrapper" in f.cls:
+            for c in f.calls(callee_re=r"Intern::(Simple)?TargetRefineWrapper<.*>::refine$"):
+                simple = "SimpleTargetRefineWrapper" in c["callee"]
+                ptype = short(f.param_type("parent") or "?").replace("const ", "").replace(" &", "")
+                key = "%s/parent=%s/%s" % (short(f.cls), ptype, "simple" if simple else "standard")
+                num = arg_by_name(c, "num_entities_trg")
+                tin = provenance(arg_by_name(c, "target_set_holder_in"), f, inits)
+                tout = provenance(arg_by_name(c, "target_set_holder_out"), f, inits)
+                prob = []
+                srcs = array_sources([f], lambda b: b.get("k") == "Ref" and num is not None and b.get("d") == num.get("d")) if num is not None and num.get("k") == "Ref" else []
+                roots = {s[0][0] if s[0] else None for s in srcs}
+                if not srcs or len(roots) != 1 or None in roots or any(s[0][1] != ("get_num_entities",) for s in srcs):
+                    prob.append("num_entities_trg is not filled from one object's get_num_entities(): %s" % [s[0] for s in srcs])
+                parent = list(roots)[0] if len(roots) == 1 else None
+                if not simple:
+                    trg = provenance(arg_by_name(c, "index_set_holder_trg"), f, inits)
+                    src = provenance(arg_by_name(c, "index_set_holder_src"), f, inits)
+                    if trg is None or trg[0] != parent or trg[1] != ("get_topology",):
+                        prob.append("index_set_holder_trg is %s, expected the topology of the object whose entity counts are passed (%s)" % (trg, parent))
+                    if src is None or src[0] == parent:
+                        prob.append("index_set_holder_src is derived from the parent object (%s)" % (src,))
+                    if src is not None and tin is not None and src[0] == tin[0]:
+                        prob.append("index_set_holder_src and target_set_holder_in are the same object")
+                if tin is None or tin[0] == parent or tout is None or tout[0] == parent or (tin and tout and tin[0] == tout[0]):
+                    prob.append("target_set_holder_in/out are %s / %s" % (tin, tout))
+                ck.ob("E10.callsite-roles", key, not prob, "; ".join(prob) or "counts and topology of %s as target, part's sets %s as source" % (parent, tin), f.file, c.get("l"))
+        # (B) the refinery of a mesh part hands the part's target sets/topology and the parent over
+        if f.name == "fill_target_sets" and re.match(r"^FEAT::Geometry::StandardRefinery<FEAT::Geometry::MeshPart<", f.cls):
+            for c in f.calls(callee_re=r"TargetSetRefineParentWrapper<.*>::fill_target_sets$"):
+                a = {nm: provenance(arg_by_name(c, nm), f, inits) for nm in ("target_set_holder", "coarse_target_set_holder", "coarse_ish", "parent")}
+                prob = []
+                if not (a["coarse_target_set_holder"] and a["coarse_ish"] and a["coarse_target_set_holder"][0] == a["coarse_ish"][0] and a["coarse_target_set_holder"][0][0] == "member"
+                        and a["coarse_target_set_holder"][1] == ("get_target_set_holder",) and a["coarse_ish"][1] == ("get_topology",)):
+                    prob.append("coarse target sets / coarse topology are %s / %s, expected get_target_set_holder() / get_topology() of the same member" % (a["coarse_target_set_holder"], a["coarse_ish"]))
+                if not (a["parent"] and a["parent"][0][0] == "member" and a["parent"][1] == () and a["coarse_ish"] and a["parent"][0] != a["coarse_ish"][0]):
+                    prob.append("parent argument is %s" % (a["parent"],))
+                if not (a["target_set_holder"] and a["target_set_holder"][0][0] == "param"):
+                    prob.append("output target set holder is %s" % (a["target_set_holder"],))
+                ck.ob("E10.callsite-roles", "%s/parent=%s" % (short(f.cls)[:120], a["parent"][0][1] if a["parent"] else "?"), not prob,
+                      "; ".join(prob) or "part %s, parent %s" % (a["coarse_ish"][0], a["parent"][0]), f.file, c.get("l"))
+        # (C) index / vertex refinement: coarse counts (not the refined ones) and the coarse mesh's sets
+        if re.match(r"^FEAT::Geometry::StandardRefinery<", f.cls) and f.name in ("fill_index_sets", "fill_vertex_set"):
+            cls_fns = [g for g in facts.functions if g.cls == f.cls and g.tk != "pattern" and g.body is not None]
+            for c in f.calls(callee_re=r"Intern::(IndexRefineWrapper|StandardVertexRefineWrapper)<.*>::refine$"):
+                prob = []
+                hin = provenance(arg_by_name(c, "index_set_holder_in"), f, inits)
+                if hin is None or hin[0][0] != "member" or hin[1] not in (("get_index_set_holder",), ("get_topology",)):
+                    prob.append("index_set_holder_in is %s" % (hin,))
+                num = arg_by_name(c, "num_entities")
+                if num is not None:
+                    if not (num.get("k") == "Member" and num.get("b", {}).get("k") == "This"):
+                        prob.append("num_entities is not a member array")
+                    else:
+                        nm = num["n"]
+                        srcs = array_sources(cls_fns, lambda b: b.get("k") == "Member" and b.get("n") == nm)
+                        roots = {s[0][0] if s[0] else None for s in srcs}
+                        if not srcs or None in roots or any(s[0][1] != ("get_num_entities",) for s in srcs) or len(roots) != 1:
+                            prob.append("%s is not filled from get_num_entities() of one mesh: %s" % (nm, [s[0] for s in srcs]))
+                        refined = [q for g in cls_fns for q in g.calls(callee_re=r"Intern::EntityCountWrapper<.*>::query$")
+                                   if q["a"] and q["a"][0].get("k") == "Member" and q["a"][0].get("n") == nm]
+                        if refined:
+                            prob.append("%s is also passed to EntityCountWrapper::query (it holds the fine counts)" % nm)
+                        # the counted mesh is the one stored in the member whose index sets are refined
+                        ctor_inits = {}
+                        for g in cls_fns:
+                            for ini in g.d.get("inits", []) or []:
+                                if "member" in ini:
+                                    pv = provenance(ini["init"], g, {})
+                                    if pv:
+                                        ctor_inits.setdefault(ini["member"], set()).add(pv[0])
+                        if hin is not None and len(roots) == 1 and None not in roots and not (list(roots)[0] in ctor_inits.get(hin[0][1], set())):
+                            prob.append("%s counts %s but the refined index sets are those of member %s (initialised from %s)" % (nm, list(roots)[0], hin[0][1], ctor_inits.get(hin[0][1])))
+                vin = arg_by_name(c, "vertex_set_in")
+                if vin is not None:
+                    pv = provenance(vin, f, inits)
+                    if pv is None or hin is None or pv[0] != hin[0] or pv[1] != ("get_vertex_set",):
+                        prob.append("vertex_set_in is %s, index sets from %s" % (pv, hin))
+                ck.ob("E10.callsite-roles", "%s::%s" % (short(f.cls)[:120], f.name), not prob, "; ".join(prob) or "coarse data of member %s" % (hin[0][1],), f.file, c.get("l"))
+        # (D) the fine counts are computed from an array initialised with the coarse counts
+        if re.match(r"^FEAT::Geometry::StandardRefinery<", f.cls) and f.d.get("ctor"):
+            for c in f.calls(callee_re=r"Intern::EntityCountWrapper<.*>::query$"):
+                arr = c["a"][0] if c.get("a") else None
+                prob = []
+                if not (arr is not None and arr.get("k") == "Member"):
+                    prob.append("argument of query is not a member array")
+                else:
+                    srcs = array_sources([f], lambda b: b.get("k") == "Member" and b.get("n") == arr["n"])
+                    roots = {s[0][0] if s[0] else None for s in srcs}
+                    if not srcs or None in roots or len(roots) != 1 or any(s[0][1] != ("get_num_entities",) for s in srcs) or list(roots)[0][0] != "param":
+                        prob.append("%s is not initialised from the coarse mesh's get_num_entities(): %s" % (arr["n"], [s[0] for s in srcs]))
+                    elif not all(f.cfg and f.cfg.block_of(c["i"]) and True for _ in [0]):
+                        pass
+                ck.ob("E10.callsite-roles", "%s::ctor(%s)/query" % (short(f.cls)[:120], ",".join(p["n"] for p in f.params)), not prob,
+                      "; ".join(prob) or "fine counts computed from the coarse counts of %s" % (list(roots)[0],), f.file, c.get("l"))
+
+
+class Prefixed:
+    """Check proxy that prefixes instance keys (second configuration of the same analysis)"""
+
+    def __init__(self, ck, prefix):
+        self._ck, self._prefix = ck, prefix
+
+    def ob(self, rule, key, ok, detail="", file=None, line=None, sample=None, trivial=False):
+        return self._ck.ob(rule, self._prefix + key, ok, detail, file, line, sample, trivial)
+
+    def incomplete(self, rule, what):
+        return self._ck.incomplete(rule, self._prefix + what)
+
+    def note(self, s):
+        return self._ck.note(self._prefix + s)
+
+
+def analyse(ck, facts):
+    """all rules on one fact base; -> list of covered templates"""
+    for e in facts.diags:
+        ck.incomplete("E0", "front-end error in the driver: %s:%s %s" % (rel(e["file"]), e["line"], e["msg"]))
+    T = Tables(facts)
+    harvest_constants(T, facts)
+    missing = [(sh, d) for sh in [("V", 0)] + SHAPES for d in range(sh[1] + 1) if (sh, d) not in T.ft or (sh, d) not in T.rc]
+    if missing:
+        ck.incomplete("E10.traits-euler", "counts not found: %s" % missing)
+        return T, []
+    extract_tables(T, ck, facts)
+    need_fim = [(("H", 2), 1, 0), (("H", 3), 1, 0), (("H", 3), 2, 0), (("H", 3), 2, 1), (("S", 2), 1, 0), (("S", 3), 1, 0), (("S", 3), 2, 0), (("S", 3), 2, 1)]
+    if any(k not in T.fim for k in need_fim):
+        ck.incomplete("E10.face-tables", "FaceIndexMapping tables missing: %s" % [k for k in need_fim if k not in T.fim])
+        return T, []
+    compute_symmetries(T)
+    check_counts(T, ck, facts)
+    check_face_tables(T, ck)
+    check_orientation_tables(T, ck, facts)
+
+    # ---- index refiner templates ------------------------------------------------------------------
+    for f in facts.find(qn_re=r"^FEAT::Geometry::Intern::StandardIndexRefiner<.*>::refine$"):
+        if f.tk == "pattern":
+            continue
+        try:
+            tm = extract_index_template(facts, f)
+        except Unsupported as e:
+            ck.incomplete("E10.template-form", "%s: %s" % (f.cls, e))
+            continue
+        try:
+            tm.usable = analyse_template(T, ck, tm)
+        except Unsupported as e:
+            ck.incomplete("E10.template-form", "%s: %s" % (f.cls, e))
+            tm.usable = False
+        T.tmpl[(tm.shape, tm.cd, tm.fd)] = tm
+    ncomb = 0
+    for sh in SHAPES:
+        ncomb += check_reference_cell(T, ck, sh)
+    ck.note("orientation combinations evaluated on the reference cells: %d" % ncomb)
+    vbases = run_vertex_wrappers(T, ck, facts)
+    numbering = {}
+    for sh in SHAPES:
+        nb = run_index_wrapper(T, ck, facts, sh, vbases.get(sh))
+        if nb is not None:
+            numbering[sh] = nb
+    check_targets(T, ck, facts, numbering)
+    check_simple_targets(T, ck, facts, numbering)
+    check_child_geometry(T, ck, facts)
+    check_callsites(ck, facts)
+    # assertions met while evaluating the glue classes on concrete local indices (visible in DEBUG parses)
+    seen = set()
+    for cls, m in sorted(T.models.items()):
+        if isinstance(m, Exception):
+            continue
+        for node, val, fn in getattr(m, "asserts", []):
+            txt = node["a"][1].get("v") if len(node.get("a", [])) > 1 else "?"
+            key = "%s/%s" % (short(fn.cls), txt)
+            if isinstance(val, bool) and (key, val) not in seen:
+                seen.add((key, val))
+                ck.ob("E10.assert-true", "tables/" + key, val, "ASSERT(%s) evaluates to %s for a valid local index" % (txt, val), fn.file, node.get("l"))
+    return T, sorted(tname(*k) for k, t in T.tmpl.items() if t.usable)
+
+
+def body_digest(n):
+    """structure of a statement tree without node/type/decl ids and line numbers"""
+    if isinstance(n, dict):
+        return {k: body_digest(v) for k, v in n.items() if k not in ("i", "t", "d", "l", "cdecl", "pt", "decl")}
+    if isinstance(n, list):
+        return [body_digest(x) for x in n]
+    return n
+
+
+ANCHOR_RE = (r"^FEAT::Geometry::Intern::(StandardIndexRefiner|StandardTargetRefiner|StandardVertexRefiner|SimpleTargetRefiner|FaceIndexMapping|CongruencyMapping|CongruencySampler|"
+             r"SubIndexMapping|TargetIndexMapping|EntityCounter|EntityCountWrapper|IndexRefine\w+|TargetRefine\w+|SimpleTargetRefine\w+|StandardVertexRefineWrapper)<")
+
+
 def run(tier):
     ck = Check("C10", tier)
+    declare_rules(ck)
     facts = featlib.extract("tu/c10_refine.cpp", files=FILES)
     ck.tu(facts)
-    for f in facts.find(qn_re=r"Intern::StandardIndexRefiner<.*>::refine$"):
-        t = extract_index_template(facts, f)
-        print(tname(t.shape, t.cd, t.fd), t.ret, t.loops, len(t.ctx.writes))
-        for w in t.ctx.writes[:6]:
-            print("   ", w)
-    for f in facts.find(qn_re=r"Intern::StandardTargetRefiner<.*>::refine$"):
-        try:
-            t = extract_target_template(facts, f)
-        except Unsupported as e:
-            print(f.cls, "UNSUPPORTED", e)
-            continue
-        print(f.cls, t.ret, t.loops, len(t.ctx.writes))
-        for w in t.ctx.writes[:6]:
-            print("   ", w)
-    return 2
+    T, covered = analyse(ck, facts)
+    ck.assume("input meshes are conforming: every local d-face of a coarse cell is a coarse d-entity with the same vertex set, whose own vertex numbering is the "
+              "cell's view of it permuted by a symmetry of the face shape (all symmetries are enumerated)")
+    ck.assume("the refineries pass the coarse entity counts / coarse index sets (resp. the parent's counts and topology for mesh parts) to the wrappers; these call-site "
+              "contracts of StandardRefinery are not checked here")
+    ck.assume("cell-locality: a template reads only index-set rows of the coarse entity it refines, of its faces and of its edges (verified by E10.slot-origin), so the "
+              "reference-cell case analysis covers every conforming mesh")
+    ck.assume("E10.child-orientation/-volume use affine cells: vertex coordinates of new vertices are the means decided by E10.vertex-mean")
+    extra = {"templates_covered": covered,
+             "not_covered": ["StandardTargetRefiner<Hypercube<3>|Simplex<3>, cell_dim>=0>: mesh parts with 3D cells (the repository aborts with XASSERT num_cells == 0)",
+                             "adaptation to charts, BoundaryFactory, FacetNeighbors, IndexCalculator, MeshPermutation, structured meshes",
+                             "call-site contracts of the refineries (coarse counts / coarse index sets passed to the wrappers) are assumed"]}
+    if tier == "thorough":
+        import json
+        # (a) the same analysis on the DEBUG configuration (ASSERTs of the table functions become visible)
+        dfacts = featlib.extract("tu/c10_refine.cpp", files=FILES, debug=True)
+        ck.tu(dfacts)
+        analyse(Prefixed(ck, "DEBUG/"), dfacts)
+        # (b) the instantiations compiled by the repository's own tests are the functions analysed above
+        mine = {f.full: f for f in facts.functions if f.tk != "pattern"}
+        for tu in ["standard_refinery-test-conf-quad.cpp", "standard_refinery-test-conf-hexa.cpp", "standard_refinery-test-conf-tria.cpp",
+                   "standard_refinery-test-conf-tetra.cpp", "mesh_part-test.cpp"]:
+            path = featlib.repo_path("kernel/geometry/" + tu)
+            try:
+                tf = featlib.extract(path, files=GEO + "intern/", names=ANCHOR_RE)
+            except featlib.AnalysisBroken as e:
+                ck.incomplete("E10.build-same", "%s: %s" % (tu, e))
+                continue
+            ck.tu(tf)
+            same = diff = 0
+            for f in tf.functions:
+                if f.tk == "pattern" or not re.search(ANCHOR_RE, f.qn):
+                    continue
+                g = mine.get(f.full)
+                if g is None:
+                    if re.search(r"Intern::(StandardIndexRefiner|StandardTargetRefiner|SimpleTargetRefiner|CongruencyMapping|FaceIndexMapping)<", f.qn):
+                        ck.ob("E10.build-same", "%s/%s" % (tu, f.full), False, "compiled by the test but not instantiated by the driver: not analysed", f.file, f.line)
+                    continue
+                ok = json.dumps(body_digest(f.body), sort_keys=True) == json.dumps(body_digest(g.body), sort_keys=True)
+                same += ok
+                diff += not ok
+                if not ok:
+                    ck.ob("E10.build-same", "%s/%s" % (tu, f.full), False, "resolved body differs from the one analysed in the driver TU", f.file, f.line)
+            ck.ob("E10.build-same", tu, same > 0 and diff == 0, "%d anchored functions compiled by this test are identical to the analysed ones" % same, path, None)
+    return ck.finish("E10: symbolic extraction of the refinement templates and tables, complete case analysis on the reference cells of %s for every orientation of their faces/edges" %
+                     ", ".join(sname(s) for s in SHAPES), extra=extra)
